@@ -283,7 +283,7 @@ def run(ctx):
     agg = Agg(ctx)
     if not ctx.thorough:
         runs = [('sym', dict(Tier='quick', Degrees={0, 1, 2, 3}, Phases={'sym', 'asym'}, TpIds={1}), 4),
-                ('tp', dict(Tier='quick', Degrees={0}, Phases={'tp'}, TpIds={1, 3, 4, 6, 8}), 4)]
+                ('tp', dict(Tier='quick', Degrees={0}, Phases={'tp'}, TpIds={1, 3, 4, 5, 6, 8}), 4)]
     else:
         runs = [('sym01', dict(Tier='thorough', Degrees={0, 1, 2}, Phases={'sym', 'asym'}, TpIds={1}), 4),
                 ('sym3', dict(Tier='thorough', Degrees={3}, Phases={'sym', 'asym'}, TpIds={1}), 4),
